@@ -1493,16 +1493,16 @@ def parts(tier):
     return [
         Part(
             "transfer", run, strategy=transfer_cases(tier),
-            n={"quick": 400, "thorough": 4000}, require=req, case_timeout_s=120.0,
+            n={"quick": 400, "thorough": 8000}, require=req, case_timeout_s=120.0,
             shards={"quick": 16, "thorough": 16},
         ),
         Part(
             "signed", run_signed, strategy=signed_cases(tier),
-            n={"quick": 320, "thorough": 3200},
+            n={"quick": 320, "thorough": 6400},
             require={
                 "signed_transfer_checked": 100, "unsigned_middle": 20, "multi_message": 50,
                 ("excluded:D12b" if EXCLUDE_D12B else "last_unsigned_refused"): 20,
             },
         ),
-        Part("query", run_query, strategy=query_cases(), n={"quick": 800, "thorough": 8000}, require=qreq),
+        Part("query", run_query, strategy=query_cases(), n={"quick": 800, "thorough": 16000}, require=qreq),
     ]
